@@ -74,6 +74,87 @@ theorem stable_destruct_dealloc {s : St} {id : Nat} {o : Obj} (hget : s.get id =
   refine stable_trans (stable_updBody s id _) (stable_dealloc ?_)
   rw [get_updBody, hget]; simp
 
+theorem stable_setPending (s : St) (p : List (Option Nat)) : Stable cfg s { s with pending := p } :=
+  fun _ o h => ⟨o, h, keeps_refl o⟩
+
+theorem stable_setReg (s : St) (r : List (Nat × Bool)) : Stable cfg s { s with reg := r } :=
+  fun _ o h => ⟨o, h, keeps_refl o⟩
+
+/-- `dealloc` looks at the header only -/
+theorem stable_dealloc' {s : St} {id : Nat} {o o' : Obj} (hget : s.get id = some o) (hh : o'.hdr = o.hdr) :
+    Stable cfg s (dealloc cfg s id o').1 := by
+  unfold dealloc
+  split
+  · exact stable_refl s
+  · split
+    · rename_i hheap; exact stable_release hget (by rw [← hh]; exact hheap)
+    · exact stable_refl s
+
+/-- a call that may raise, followed by one more step when it did not -/
+theorem stable_then {fin : St → Nat → St × Outcome} (hfin : ∀ s x, Stable cfg s (fin s x).1) (s : St) (x : Nat)
+    {r : St × Outcome} {g : St → St} (hg : ∀ t, Stable cfg t (g t))
+    (hr : r = (match fin s x with | (s1, .ok) => (g s1, Outcome.ok) | r => r)) : Stable cfg s r.1 := by
+  subst hr
+  split
+  · rename_i s1 heq
+    have h := hfin s x
+    rw [heq] at h
+    exact stable_trans h (hg s1)
+  · exact hfin s x
+
+theorem stable_gcRem {fin : St → Nat → St × Outcome} (hfin : ∀ s x, Stable cfg s (fin s x).1) (s : St) (x : Nat) :
+    Stable cfg s (gcRem fin cfg s x).1 := by
+  unfold gcRem
+  split
+  · split
+    · split
+      · exact stable_trans (stable_setPending s _) (hfin _ _)
+      · exact stable_then hfin s x (g := fun t => { t with pending := strike x t.pending }) (fun t => stable_setPending t _) rfl
+      · exact hfin s x
+    · split
+      · exact stable_refl s
+      · exact stable_setPending s _
+  · split
+    · split
+      · exact stable_trans (stable_unreg s x) (hfin _ _)
+      · exact stable_then hfin s x (g := fun t => t.unreg x) (fun t => stable_unreg t x) rfl
+      · exact hfin s x
+    · exact stable_refl s
+
+theorem stable_finalise : ∀ (fuel : Nat) (s : St) (id : Nat), Stable cfg s (finalise fuel cfg s id).1 := by
+  intro fuel
+  induction fuel with
+  | zero => intro s id; exact stable_refl s
+  | succ fuel ih =>
+    intro s id
+    rw [finalise_succ]
+    split
+    · exact stable_refl s
+    · rename_i o hget
+      split
+      · exact stable_refl s
+      · split
+        · rename_i x hbx
+          split
+          · split
+            · rename_i s1 heq
+              have h1 : Stable cfg s s1 := by
+                have := stable_gcRem (cfg := cfg) ih s x
+                rw [heq] at this; exact this
+              split
+              · obtain ⟨o1, hg1, k1⟩ := h1 id o hget
+                refine stable_trans h1 (stable_trans (stable_updBody s1 id _) (stable_dealloc' (o := { o1 with body := .box none }) ?_ k1.1.symm))
+                rw [get_updBody, hg1]; simp
+              · exact h1
+            · exact stable_gcRem ih s x
+          · exact stable_destruct_dealloc hget _
+        · cases hdb : destructBody cfg o.hdr o.body with
+          | mk b out =>
+            cases out with
+            | ok => exact stable_destruct_dealloc hget b
+            | raised e => exact stable_refl s
+            | ub => exact stable_refl s
+
 theorem stable_freeObj {s : St} (f : FreeOp) {id : Nat} {o : Obj} (hget : s.get id = some o) :
     Stable cfg s (freeObj cfg s f id o).1 := by
   cases f with
@@ -81,48 +162,64 @@ theorem stable_freeObj {s : St} (f : FreeOp) {id : Nat} {o : Obj} (hget : s.get 
   | deallocRaw => exact stable_dealloc hget
   | deallocRoot => exact stable_dealloc hget
   | destruct => simp only [freeObj]; exact stable_updBody s id _
-  | delRaw =>
-    simp only [freeObj]
-    cases hdb : destructBody cfg o.hdr o.body with
-    | mk b out =>
-      cases out with
-      | ok => exact stable_destruct_dealloc hget b
-      | raised e => exact stable_refl s
-      | ub => exact stable_refl s
+  | delRaw => simp only [freeObj]; exact stable_finalise _ s id
   | del =>
     simp only [freeObj]
-    repeat' split
-    all_goals first
-      | exact stable_refl s
-      | exact stable_unreg s id
-      | exact stable_destruct_dealloc hget _
-      | exact stable_trans (stable_unreg s id) (stable_destruct_dealloc (s := s.unreg id) hget _)
+    split
+    · exact stable_gcRem (stable_finalise _) s id
+    · exact stable_finalise _ s id
   | delRoot =>
     simp only [freeObj]
-    repeat' split
-    all_goals first
-      | exact stable_refl s
-      | exact stable_unreg s id
-      | exact stable_destruct_dealloc hget _
-      | exact stable_trans (stable_unreg s id) (stable_destruct_dealloc (s := s.unreg id) hget _)
+    split
+    · exact stable_gcRem (stable_finalise _) s id
+    · exact stable_finalise _ s id
 
-theorem stable_sweepOne (s : St) (id : Nat) : Stable cfg s (sweepOne cfg s id) := by
-  unfold sweepOne
-  split
-  · exact stable_refl s
-  · split
-    · rename_i o hget
-      simp only
-      repeat' split
-      all_goals first
-        | exact stable_unreg s id
-        | exact stable_trans (stable_unreg s id) (stable_destruct_dealloc (s := s.unreg id) hget _)
-    · exact stable_unreg s id
-
-theorem stable_foldl_sweepOne (l : List Nat) : ∀ s : St, Stable cfg s (l.foldl (sweepOne cfg) s) := by
-  induction l with
+theorem stable_sweepLoop (fuel : Nat) : ∀ (todo : List Nat) (s : St), Stable cfg s (sweepLoop fuel cfg todo s).1 := by
+  intro todo
+  induction todo with
   | nil => intro s; exact stable_refl s
-  | cons x r ih => intro s; exact stable_trans (stable_sweepOne s x) (ih _)
+  | cons a rest ih =>
+    intro s
+    rw [sweepLoop]
+    split
+    · split
+      · -- the loop finalises
+        have hfin : ∀ (t : St) (x : Nat), Stable cfg t (finalise fuel cfg t x).1 := fun t x => stable_finalise fuel t x
+        have hr : ∀ r : St × Outcome, Stable cfg s r.1 →
+            Stable cfg s (match r with | (s', Outcome.ok) => sweepLoop fuel cfg rest s' | r => r).1 := by
+          intro r h
+          split
+          · exact stable_trans h (ih _)
+          · exact h
+        apply hr
+        split
+        · exact stable_trans (stable_setPending s _) (hfin _ _)
+        · exact stable_then hfin s a (g := fun t => { t with pending := strike a t.pending }) (fun t => stable_setPending t _) rfl
+        · exact hfin s a
+      · split
+        · exact ih s
+        · exact stable_trans (stable_setPending s _) (ih _)
+    · exact ih s
+
+theorem stable_collect (s : St) (vs : List Nat) : Stable cfg s (s.collect cfg vs).1 := by
+  unfold St.collect
+  have h1 : Stable cfg s { s with reg := s.reg.filter (fun p => !vs.contains p.1), pending := vs.map some } :=
+    fun _ o h => ⟨o, h, keeps_refl o⟩
+  simp only
+  split
+  · rename_i s2 heq
+    have := stable_sweepLoop (cfg := cfg) (fuelFor { s with reg := s.reg.filter (fun p => !vs.contains p.1), pending := vs.map some })
+      vs { s with reg := s.reg.filter (fun p => !vs.contains p.1), pending := vs.map some }
+    rw [heq] at this
+    exact stable_trans h1 (stable_trans this (stable_setPending s2 _))
+  · exact stable_trans h1 (stable_sweepLoop _ _ _)
+
+theorem stable_stepOwn (s : St) (id : Nat) (target : Option Nat) : Stable cfg s (stepOwn s id target).1 := by
+  unfold stepOwn
+  repeat' split
+  all_goals first
+    | exact stable_refl s
+    | exact stable_updBody s id _
 
 theorem stable_step (s : St) (op : Op) : Stable cfg s (step cfg s op).1 := by
   cases op with
@@ -173,7 +270,10 @@ theorem stable_step (s : St) (op : Op) : Stable cfg s (step cfg s op).1 := by
   | iter id back => simp only [step]; split <;> exact stable_refl s
   | values id => simp only [step]; split <;> exact stable_refl s
   | view v => simp only [step]; split <;> exact stable_refl s
-  | sweep victims => simp only [step, St.sweep]; exact stable_foldl_sweepOne _ s
+  | own id target => simp only [step]; exact stable_stepOwn s id target
+  | sweep victims order => simp only [step, St.sweep]; exact stable_collect s _
+  | thr victims order => simp only [step, St.sweep]; exact stable_collect s _
+  | exit order => simp only [step]; split <;> exact stable_refl s
   | finish => exact stable_refl s
 
 theorem stable_run (ops : List Op) : ∀ s : St, Stable cfg s (run cfg s ops) := by
